@@ -76,6 +76,9 @@ thread_local! {
     /// set by history stages: the next run_counter call of this thread ends with merge(false) — the documented way of
     /// keeping the chunk files next to the merged table
     pub static MERGE_KEEPS_CHUNKS: std::cell::Cell<bool> = const { std::cell::Cell::new(false) };
+    /// set by history stages: leave the output directory exactly as the earlier runs of the history left it (no
+    /// removal / planting of a synthetic stale table before the run)
+    pub static KEEP_DIRECTORY_STATE: std::cell::Cell<bool> = const { std::cell::Cell::new(false) };
 }
 
 pub fn run_counter(in_path: &str, out_dir: &str, cfg: &CtrCfg, ctl: Option<&Arc<Controller>>) -> CtrRun {
@@ -83,7 +86,9 @@ pub fn run_counter(in_path: &str, out_dir: &str, cfg: &CtrCfg, ctl: Option<&Arc<
     // files already present before the run (other runs of a history, planted stale files) are not this run's leftovers
     let pre_existing: Option<HashSet<String>> = std::fs::read_dir(out_dir).ok().map(|rd| rd.flatten().map(|e| e.file_name().to_string_lossy().into_owned()).collect());
     // every other run finds a stale (longer, different) counts table from "an earlier run" in the directory
-    super::oligo::prepare_output(&format!("{}/kmers.counts", out_dir));
+    if !KEEP_DIRECTORY_STATE.with(|c| c.get()) {
+        super::oligo::prepare_output(&format!("{}/kmers.counts", out_dir));
+    }
     if let Some(c) = ctl {
         c.install();
     }
